@@ -1,6 +1,7 @@
 SPECIFICATION Spec
 CONSTANT Kinds <- McKinds
 CONSTANT MaxDepth = 3
+CONSTANT Pre = {"foreign"}
 CONSTANT Bypass = FALSE
 INVARIANT RoNeverWrites
 INVARIANT StaticIsInert
